@@ -865,7 +865,8 @@ theorem dataLines (W : Nat) (hW : 7 < W) (d : Str) (hcl : Clean d) (hlong : NoLo
     (∀ x ∈ ((textwrapWrap W [] (blanks 5) d).filter stripNonEmpty).tail, isIndented x = true) ∧
     (((textwrapWrap W [] (blanks 5) d).filter stripNonEmpty).map Spec.File.words).flatten = Spec.File.words d ∧
     (∀ o os, (textwrapWrap W [] (blanks 5) d).filter stripNonEmpty = o :: os →
-      isIndented o = isIndented d ∧ (isCommentCard o = isCommentCard d ∨ isIndented o = true)) ∧
+      isIndented o = isIndented d ∧
+        (o = d ∨ (6 ≤ o.length ∧ isCommentCard o = isCommentCard d) ∨ isIndented o = true)) ∧
     (stripNonEmpty d = true → (textwrapWrap W [] (blanks 5) d).filter stripNonEmpty ≠ []) := by
   have hind := C10_indent W [] (blanks 5) d
   have hwords := C10_words_file W 0 5 d hlong
@@ -945,7 +946,7 @@ theorem dataLines (W : Nat) (hW : 7 < W) (d : Str) (hcl : Clean d) (hlong : NoLo
           exact ⟨rfl, Or.inl rfl⟩
         · have h6 := hlen hr
           rw [hd]
-          exact ⟨(isIndented_prefix _ _ (by omega)).symm, Or.inl (isCommentCard_prefix _ _ h6).symm⟩
+          exact ⟨(isIndented_prefix _ _ (by omega)).symm, Or.inr (Or.inl ⟨h6, (isCommentCard_prefix _ _ h6).symm⟩)⟩
       · have hk' : stripNonEmpty l0 = false := by simpa using hk
         simp only [List.filter_cons, hk', Bool.false_eq_true, if_false] at hret
         have ho : o ∈ ls := by
@@ -960,7 +961,7 @@ theorem dataLines (W : Nat) (hW : 7 < W) (d : Str) (hcl : Clean d) (hlong : NoLo
           rw [this] at ho; simp at ho
         have h6 := hlen hr
         have hbl := blank_of_clean_not_strip l0 (hclean l0 List.mem_cons_self) hk'
-        refine ⟨?_, Or.inr hoi⟩
+        refine ⟨?_, Or.inr (Or.inr hoi)⟩
         rw [hoi, hd, isIndented_prefix _ _ (by omega), isIndented_all_blank l0 hbl (by omega)]
   · intro hs
     simp only [stripNonEmpty, List.any_eq_true, Bool.not_eq_true'] at hs
@@ -975,5 +976,260 @@ theorem dataLines (W : Nat) (hW : 7 < W) (d : Str) (hcl : Clean d) (hlong : NoLo
       simp only [stripNonEmpty, List.any_eq_true, Bool.not_eq_true']
       exact ⟨c, by rw [hxi]; exact List.mem_append_right _ hcb, hcs⟩
     intro h; rw [h] at this; simp at this
+
+/-- a well-formed data line (first line of a card or continuation) -/
+structure DLine (x : Str) : Prop where
+  nonblank : isBlankLine x = false
+  notcomment : isCommentCard x = false
+  noamp : '&' ∉ (splitDollar x).1
+
+theorem ContLine.dline {x : Str} (h : ContLine x) : DLine x := ⟨h.nonblank, h.not_comment, h.noamp⟩
+
+theorem plain_facts (x : Str) (hd : '$' ∉ x) (ha : '&' ∉ x) (hnc : isCommentCard x = false) :
+    '&' ∉ (splitDollar x).1 ∧ cw x = Spec.File.words x ∧ cdl x = [] ∧ ccm x = [] := by
+  have hs := splitDollar_of_no_dollar x hd
+  simp [cw, cdl, ccm, hnc, hs, ha]
+
+theorem attached_facts (a t : Str) (hd : '$' ∉ a) (ha : '&' ∉ a) (hnc : isCommentCard (a ++ '$' :: t) = false) :
+    '&' ∉ (splitDollar (a ++ '$' :: t)).1 ∧ cw (a ++ '$' :: t) = Spec.File.words a ∧
+      cdl (a ++ '$' :: t) = sq t ∧ ccm (a ++ '$' :: t) = [] := by
+  have hs := splitDollar_append a t hd
+  simp [cw, cdl, ccm, hnc, hs, ha]
+
+theorem indented_append (o s : Str) (h : isIndented o = true) : isIndented (o ++ s) = true := by
+  have h5 : 5 ≤ o.length := by
+    simp only [isIndented, decide_eq_true_eq] at h
+    have := takeWhile_blank_length_le o
+    omega
+  rw [isIndented_prefix _ _ h5]; exact h
+
+theorem getLast?_split {α} : ∀ (l : List α) (a : α), l.getLast? = some a → ∃ front, l = front ++ [a] ∧ l.dropLast = front
+  | [], a, h => by simp at h
+  | [x], a, h => by
+    simp only [List.getLast?_singleton, Option.some.injEq] at h
+    subst h; exact ⟨[], rfl, rfl⟩
+  | x :: y :: r, a, h => by
+    have h' : (y :: r).getLast? = some a := by simpa [List.getLast?_cons_cons] using h
+    obtain ⟨front, hf, hd⟩ := getLast?_split (y :: r) a h'
+    refine ⟨x :: front, by rw [hf]; rfl, ?_⟩
+    simp only [List.dropLast_cons₂, hd]
+
+theorem flatten_map_eq_nil {α β} (f : α → List β) (l : List α) (h : ∀ x ∈ l, f x = []) : (l.map f).flatten = [] := by
+  induction l with
+  | nil => rfl
+  | cons a l ih =>
+    simp [h a List.mem_cons_self, ih (fun x hx => h x (List.mem_cons_of_mem _ hx))]
+
+theorem flatten_map_congr {α β} (f g : α → List β) (l : List α) (h : ∀ x ∈ l, f x = g x) :
+    (l.map f).flatten = (l.map g).flatten := by
+  rw [List.map_congr_left h]
+
+/-- the data lines the round trip is proved for (the class `C10_content_data` names, per line):
+    no chunk of the data longer than a continuation line holds; no `&` in the data; the data before a `$` is not by
+    itself a comment card (`c$ …`); a line that holds only a `$` comment is a continuation line -/
+structure DataOK (W : Nat) (L : Str) : Prop where
+  long : NoLongChunk W 0 5 (partitionDollar L).1
+  amp : '&' ∉ (partitionDollar L).1
+  cdollar : isCommentCard (partitionDollar L).1 = false
+  only : stripNonEmpty (partitionDollar L).1 = true ∨ isIndented L = true
+
+/-- **a wrapped data line**: `_wrap_line` returns a first line that is indented exactly when the source line is
+    and is a well-formed data line, followed by well-formed continuation lines; together they contribute to the card
+    exactly the words and the `$` comment of the source line. -/
+theorem wrapLine_data (W : Nat) (hW : 7 < W) (L : Str) (hcl : Clean L) (hnb : stripNonEmpty L = true)
+    (hnc : isCommentCard L = false) (hok : DataOK W L) :
+    ∃ o os, wrapLine L W [] (blanks 5) = o :: os ∧ isIndented o = isIndented L ∧ DLine o ∧
+      (∀ x ∈ os, ContLine x) ∧ obsLines (o :: os) = (cw L, cdl L, ccm L) := by
+  have hsd := splitDollar_eq L
+  have hpa := partitionDollar_append L
+  have hnd := partitionDollar_no_dollar L
+  obtain ⟨hlong, hamp, hcd, honly⟩ := hok
+  have hLnb := not_fileBlank_of_stripNonEmpty L hnb
+  have hccmL : ccm L = [] := by simp [ccm, hnc]
+  unfold wrapLine
+  simp only [expandTabs_clean _ L hcl, isCommentLine_eq, hnc, Bool.false_eq_true, if_false, List.length_nil,
+    Nat.zero_add, List.nil_append]
+  generalize partitionDollar L = p at *
+  obtain ⟨d, has, t⟩ := p
+  simp only at hsd hpa hnd hlong hamp hcd honly ⊢
+  have hcld : Clean d := by
+    intro c hc hs
+    exact hcl c (by rw [hpa]; exact List.mem_append_left _ hc) hs
+  split
+  · -- the line fits: returned as it is
+    refine ⟨L, [], rfl, rfl, ⟨hLnb, hnc, by rw [hsd]; exact hamp⟩, by simp, by simp [obsLines]⟩
+  · obtain ⟨f1, f2, f3, f4, f5⟩ := dataLines W hW d hcld hlong hamp hnd
+    generalize (textwrapWrap W [] (blanks 5) d).filter stripNonEmpty = ret at *
+    -- the first data line
+    have hhead : ∀ o os, ret = o :: os → ∀ s, isCommentCard (d ++ s) = false → isCommentCard (o ++ s) = false := by
+      intro o os hr s hs
+      rcases (f4 o os hr).2 with h | ⟨h6, hc⟩ | h
+      · rw [h]; exact hs
+      · rw [isCommentCard_prefix _ _ h6, hc]; exact hcd
+      · exact not_comment_of_indented _ (indented_append o s h)
+    have htailc : ∀ o os, ret = o :: os → ∀ x ∈ os, ContLine x ∧ cw x = Spec.File.words x ∧ cdl x = [] ∧ ccm x = [] := by
+      intro o os hr x hx
+      have hxr : x ∈ ret := by rw [hr]; exact List.mem_cons_of_mem _ hx
+      have hxi : isIndented x = true := f2 x (by rw [hr]; exact hx)
+      obtain ⟨h1, h2, h3⟩ := f1 x hxr
+      have hp := plain_facts x h2 h3 (not_comment_of_indented x hxi)
+      exact ⟨⟨h1, hxi, hp.1⟩, hp.2⟩
+    cases has with
+    | false =>
+      simp only [Bool.false_eq_true, if_false, List.append_nil] at hpa hsd ⊢
+      subst hpa
+      have hne := f5 hnb
+      cases ret with
+      | nil => exact absurd rfl hne
+      | cons o os =>
+        obtain ⟨h1, h2, h3⟩ := f1 o List.mem_cons_self
+        have hoc : isCommentCard o = false := by
+          have := hhead o os rfl [] (by simpa using hnc); simpa using this
+        have hp := plain_facts o h2 h3 hoc
+        have hLp := plain_facts L hnd hamp hnc
+        refine ⟨o, os, rfl, (f4 o os rfl).1, ⟨h1, hoc, hp.1⟩, fun x hx => (htailc o os rfl x hx).1, ?_⟩
+        have hcw : ∀ x ∈ o :: os, cw x = Spec.File.words x := by
+          intro x hx
+          simp only [List.mem_cons] at hx
+          rcases hx with rfl | hx
+          · exact hp.2.1
+          · exact (htailc o os rfl x hx).2.1
+        have hcd0 : ∀ x ∈ o :: os, cdl x = [] := by
+          intro x hx
+          simp only [List.mem_cons] at hx
+          rcases hx with rfl | hx
+          · exact hp.2.2.1
+          · exact (htailc o os rfl x hx).2.2.1
+        have hcc0 : ∀ x ∈ o :: os, ccm x = [] := by
+          intro x hx
+          simp only [List.mem_cons] at hx
+          rcases hx with rfl | hx
+          · exact hp.2.2.2
+          · exact (htailc o os rfl x hx).2.2.2
+        simp only [obsLines]
+        rw [flatten_map_congr _ _ _ hcw, f3, flatten_map_eq_nil _ _ hcd0, flatten_map_eq_nil _ _ hcc0,
+          hLp.2.1, hLp.2.2.1, hLp.2.2.2]
+    | true =>
+      simp only [if_true] at hpa hsd ⊢
+      have hLc : isCommentCard (d ++ '$' :: t) = false := by rw [← hpa]; exact hnc
+      have hLf := attached_facts d t hnd hamp hLc
+      rw [← hpa] at hLf
+      obtain ⟨dl1, dl2, dl3⟩ := dollarLines W hW t (by
+        intro c hc hs
+        exact hcl c (by rw [hpa]; exact List.mem_append_right _ (List.mem_cons_of_mem _ hc)) hs)
+      generalize textwrapWrap W (blanks 5) (blanks 5 ++ ['$', ' ']) ('$' :: t) = cl at *
+      have hclcw : ∀ x ∈ cl, cw x = [] := fun x hx => (dl2 x hx).2.1
+      have hclcc : ∀ x ∈ cl, ccm x = [] := fun x hx => (dl2 x hx).2.2
+      -- facts about all of ret
+      have hretcw : ∀ o os, ret = o :: os → (ret.map cw).flatten = Spec.File.words d ∧
+          (ret.map cdl).flatten = [] ∧ (ret.map ccm).flatten = [] := by
+        intro o os hr
+        obtain ⟨h1, h2, h3⟩ := f1 o (by rw [hr]; exact List.mem_cons_self)
+        have hoc : isCommentCard o = false := by
+          have := hhead o os hr [] (by simpa using hcd); simpa using this
+        have hp := plain_facts o h2 h3 hoc
+        have hall : ∀ x ∈ ret, cw x = Spec.File.words x ∧ cdl x = [] ∧ ccm x = [] := by
+          intro x hx
+          rw [hr] at hx
+          simp only [List.mem_cons] at hx
+          rcases hx with rfl | hx
+          · exact hp.2
+          · exact (htailc o os hr x hx).2
+        refine ⟨?_, flatten_map_eq_nil _ _ (fun x hx => (hall x hx).2.1), flatten_map_eq_nil _ _ (fun x hx => (hall x hx).2.2)⟩
+        rw [flatten_map_congr _ _ _ (fun x hx => (hall x hx).1), f3]
+      split
+      · rename_i last hlast
+        obtain ⟨front, hfront, hdrop⟩ := getLast?_split ret last hlast
+        split
+        · -- the comment is put back behind the last data line
+          rw [hdrop]
+          have hlr : last ∈ ret := by rw [hfront]; simp
+          obtain ⟨l1, l2, l3⟩ := f1 last hlr
+          cases front with
+          | nil =>
+            simp only [List.nil_append] at hfront ⊢
+            have hlc : isCommentCard (last ++ '$' :: t) = false := hhead last [] hfront _ hLc
+            have haf := attached_facts last t l2 l3 hlc
+            refine ⟨last ++ '$' :: t, [], rfl, ?_, ⟨?_, hlc, haf.1⟩, by simp, ?_⟩
+            · rw [isIndented_dollar, (f4 last [] hfront).1, hpa, isIndented_dollar]
+            · exact not_fileBlank_of_mem _ '$' (by simp) (by decide)
+            · have hw := (hretcw last [] hfront).1
+              rw [hfront] at hw
+              simp only [List.map_cons, List.map_nil, List.flatten_cons, List.flatten_nil, List.append_nil] at hw
+              have hlp := plain_facts last l2 l3 (by have := hhead last [] hfront [] (by simpa using hcd); simpa using this)
+              rw [hlp.2.1] at hw
+              simp only [obsLines, List.map_cons, List.map_nil, List.flatten_cons, List.flatten_nil, List.append_nil,
+                haf.2.1, haf.2.2.1, haf.2.2.2, hw, hLf.2.1, hLf.2.2.1, hccmL]
+          | cons o os' =>
+            have hr : ret = o :: (os' ++ [last]) := by rw [hfront]; rfl
+            have hli : isIndented last = true := f2 last (by rw [hr]; simp)
+            have hlc : isCommentCard (last ++ '$' :: t) = false :=
+              not_comment_of_indented _ (indented_append _ _ hli)
+            have haf := attached_facts last t l2 l3 hlc
+            obtain ⟨h1, h2, h3⟩ := f1 o (by rw [hr]; exact List.mem_cons_self)
+            have hoc : isCommentCard o = false := by
+              have := hhead o _ hr [] (by simpa using hcd); simpa using this
+            have hp := plain_facts o h2 h3 hoc
+            refine ⟨o, os' ++ [last ++ '$' :: t], rfl, ?_, ⟨h1, hoc, hp.1⟩, ?_, ?_⟩
+            · rw [(f4 o _ hr).1, hpa, isIndented_dollar]
+            · intro x hx
+              simp only [List.mem_append, List.mem_singleton] at hx
+              rcases hx with hx | rfl
+              · exact (htailc o _ hr x (List.mem_append_left _ hx)).1
+              · exact ⟨not_fileBlank_of_mem _ '$' (by simp) (by decide), indented_append _ _ hli, haf.1⟩
+            · obtain ⟨hw, hdz, hcz⟩ := hretcw o _ hr
+              rw [hr] at hw hdz hcz
+              have hlp := (htailc o _ hr last (by simp)).2
+              simp only [List.map_cons, List.map_append, List.map_nil, List.flatten_cons, List.flatten_append,
+                List.flatten_nil, List.append_nil, hlp.1, hlp.2.1, hlp.2.2] at hw hdz hcz
+              simp only [obsLines, List.map_cons, List.map_append, List.map_nil, List.flatten_cons,
+                List.flatten_append, List.flatten_nil, List.append_nil, haf.2.1, haf.2.2.1, haf.2.2.2,
+                hLf.2.1, hLf.2.2.1, hccmL, hw]
+              have hd1 : cdl o ++ (os'.map cdl).flatten = [] := by
+                have := hdz; simpa using this
+              have hc1 : ccm o ++ (os'.map ccm).flatten = [] := by
+                have := hcz; simpa using this
+              simp only [List.append_eq_nil_iff] at hd1 hc1
+              simp [hd1.1, hd1.2, hc1.1, hc1.2]
+        · -- the comment goes on continuation lines of its own
+          cases ret with
+          | nil => simp at hlast
+          | cons o os =>
+            obtain ⟨h1, h2, h3⟩ := f1 o List.mem_cons_self
+            have hoc : isCommentCard o = false := by
+              have := hhead o os rfl [] (by simpa using hcd); simpa using this
+            have hp := plain_facts o h2 h3 hoc
+            refine ⟨o, os ++ cl, rfl, ?_, ⟨h1, hoc, hp.1⟩, ?_, ?_⟩
+            · rw [(f4 o os rfl).1, hpa, isIndented_dollar]
+            · intro x hx
+              rcases List.mem_append.mp hx with hx | hx
+              · exact (htailc o os rfl x hx).1
+              · exact (dl2 x hx).1
+            · obtain ⟨hw, hdz, hcz⟩ := hretcw o os rfl
+              have : o :: (os ++ cl) = (o :: os) ++ cl := rfl
+              rw [this]
+              simp only [obsLines, List.map_append, List.flatten_append, hw, hdz, hcz, dl3,
+                flatten_map_eq_nil _ _ hclcw, flatten_map_eq_nil _ _ hclcc, List.append_nil, List.nil_append,
+                hLf.2.1, hLf.2.2.1, hccmL]
+      · -- no data line at all: the line holds only a `$` comment
+        rename_i hnone
+        have hrn : ret = [] := by
+          cases ret with
+          | nil => rfl
+          | cons a r => simp [List.getLast?_cons] at hnone
+        subst hrn
+        simp only [List.nil_append]
+        have hLi : isIndented L = true := by
+          rcases honly with h | h
+          · exact absurd rfl (f5 h)
+          · exact h
+        have hwd : Spec.File.words d = [] := by simpa using f3.symm
+        cases cl with
+        | nil => exact absurd rfl dl1
+        | cons o os =>
+          have ho := (dl2 o List.mem_cons_self).1
+          refine ⟨o, os, rfl, by rw [ho.indented, hLi], ho.dline, fun x hx => (dl2 x (List.mem_cons_of_mem _ hx)).1, ?_⟩
+          simp only [obsLines, dl3, flatten_map_eq_nil _ _ hclcw, flatten_map_eq_nil _ _ hclcc, hLf.2.1, hLf.2.2.1,
+            hccmL, hwd]
 
 end MontePyVerif.C10
